@@ -314,6 +314,9 @@ namespace sim
 		if (ec) return std::shared_ptr<aux::channel>();
 
 		p.hops = c->hops[1];
+		// queues may drop a SYN: without a notification the connect would
+		// never complete
+		p.drop_fun = s->internal_syn_drop_fun();
 
 		forward_packet(std::move(p));
 
